@@ -76,6 +76,10 @@ def _cases(tier, seed):
     for dt in ('float64', 'complex128'):
         for op in ('mul', 'rmul'):
             cs.append({'scen': 'ttm_scalar', 's': {'op': op, 'M': [2, 1], 'N': [1, 3], 'RA': [1, 2, 1], 'dtype': dt, 'skind': 'complex'}})
+    # zero scalars on operators of every dtype (the zero shortcut builds its own cores)
+    for dt in ('complex128', 'float32', 'complex64'):
+        for op in ('mul', 'rmul', 'add', 'sub', 'rsub'):
+            cs.append({'scen': 'ttm_scalar', 's': {'op': op, 'M': [2, 1], 'N': [1, 3], 'RA': [1, 2, 1], 'dtype': dt, 'skind': 'int', 'ival': 0}})
     for fv in (0.1, 1.0000000596046448):
         for op in ('add', 'sub', 'rsub', 'mul', 'rmul', 'div'):
             cs.append({'scen': 'ttm_scalar', 's': {'op': op, 'M': [2, 1], 'N': [1, 3], 'RA': [1, 2, 1], 'dtype': 'float64', 'skind': 'pyfloat', 'fval': fv}})
